@@ -85,14 +85,14 @@ TinyDef(s)  == \A m \in s.means : LtW(m, Two)       \* every reading of the mean
 TinyLen(s)  == \E m \in s.means : LtW(m, Two)
 (* definitely holds => an error is mandatory *)
 Definite(s) == \/ s.zeroReading \/ s.zeroDelta \/ s.backE > 3 \/ s.modE > Thr
-               \/ (s.stuckW > Thr /\ s.stuckZ > Thr) \/ (s.full /\ TinyDef(s))
+               \/ s.stuckW > Thr \/ (s.full /\ TinyDef(s))
 (* leniently holds => the error may be reported *)
 Holds(e, s) ==
   CASE e = "NoTimer"        -> s.zeroReading
     [] e = "CoarseTimer"    -> s.zeroDelta \/ s.modE > Thr \/ s.modAll > Thr
     [] e = "NotMonotonic"   -> s.backE > 3 \/ s.backAll > 3
     [] e = "TinyVariations" -> s.np > Warm /\ TinyLen(s)
-    [] e = "TooManyStuck"   -> s.stuckW > Thr \/ s.stuckZ > Thr
+    [] e = "TooManyStuck"   -> s.stuckW > Thr         \* the stuck test takes its differences mod 2^32 (see Jitter.tla)
     [] OTHER -> FALSE
 Errors == {"NoTimer", "CoarseTimer", "NotMonotonic", "TinyVariations", "TooManyStuck"}
 
